@@ -161,6 +161,7 @@ fn run(prop: &str, tier: Tier, seed: u64) -> i32 {
                 .arg("--quiet")
                 .env("RAYON_NUM_THREADS", "1")
                 .env("TZ", "UTC")
+                .env("TMPDIR", tmp_dir())
                 .stdout(std::process::Stdio::null())
                 .stderr(std::process::Stdio::null())
                 .status()
